@@ -71,6 +71,13 @@ _POOL = [("q", [10, 0, 5]), ("b", ["n", "", "k"]), ("m", [1, 0, 2]), ("a", [7, 0
 _FOREIGN = {"zz": 99, "a0": "k"}     # variables that are not in any scope (ignore_extra_vars)
 
 
+def _doms(env, p):
+    """domain sizes of this run: fixed by the shape, or one of the shape's list (enumerated)"""
+    if "doms_any" in p:
+        return env.choice("domain-sizes", p["doms_any"])
+    return p["doms"]
+
+
 def _mk_vars(doms, pool=_POOL):
     from pydcop.dcop.objects import Variable
     return [Variable(pool[i][0], fx.domain("d_" + pool[i][0], pool[i][1][:s])) for i, s in enumerate(doms)]
@@ -182,6 +189,8 @@ def _check_chain(env, tag, rel, scope, oracle, chain, sfx="", slice_kw=None, zer
         p = dict(zip(sliced, vals))
         cur = rel
         failed = None
+        done = {}
+        zeroed = False
         for blk in calls:
             step = {n: (p[n] if n in byname else _FOREIGN[n]) for n in blk}
             nxt = env.call(cur.slice, step, **(slice_kw or {}))
@@ -189,12 +198,16 @@ def _check_chain(env, tag, rel, scope, oracle, chain, sfx="", slice_kw=None, zer
                 failed = (step, nxt)
                 break
             cur = nxt
+            done.update({n: p[n] for n in blk if n in byname})
+            if zeroed_ok and zeroed_ok(done) and list(cur.dimensions) == []:
+                zeroed = True      # documented constant-0 result: there is nothing left to slice
+                break
         _prove(env, lab + ".no-exception" + sfx, failed is None,
                detail=lambda: dict(chain=chain, values=p, step=failed[0], raised=repr(failed[1]), tb=failed[1].tb))
         if failed is not None:
             continue
         dims = env.call(lambda: list(cur.dimensions))
-        zeroed = bool(zeroed_ok and zeroed_ok(p) and dims == [])
+        zeroed = zeroed or bool(zeroed_ok and zeroed_ok(p) and dims == [])
         ok = (not isinstance(dims, Raised)) and (zeroed or sorted(_names(dims)) == sorted(_names(rest)))
         _prove(env, lab + ".scope-is-exactly-the-remaining-variables" + sfx, ok,
                detail=lambda: dict(chain=chain, values=p, result=repr(cur), result_dimensions=dims, remaining=_names(rest)))
@@ -244,7 +257,7 @@ def h_matrix(env):
     from pydcop.dcop import relations as R
     p = env.params
     fx.install_numpy_shim(env, R)
-    vs = _mk_vars(p["doms"])
+    vs = _mk_vars(_doms(env, p))
     if env.choice("variable-list-order", ["given", "reversed"]) == "reversed":
         vs = list(reversed(vs))
     rel, cells = fx.matrix_relation(env, "mat", vs)
@@ -260,9 +273,12 @@ def h_matrix(env):
 
 
 def _matrix_shapes(tier):
-    doms = [[], [3], [2, 3], [3, 2, 2], [2, 2, 2, 2]] + ([[3, 2, 3, 2]] if tier == "thorough" else [])
-    out = [dict(doms=d, steps=s) for d in doms for s in ("one", "several")]
-    out += [dict(doms=d, steps="one", extra=True) for d in ([[2, 2]] + ([[2, 2, 2]] if tier == "thorough" else []))]
+    doms = [[], [3], [2, 3], [3, 2, 2]]
+    out = [dict(doms_any=doms + [[2, 2, 2, 2]], steps="one"), dict(doms_any=doms, steps="several"),
+           dict(doms=[2, 2], steps="one", extra=True)]
+    if tier == "thorough":
+        out += [dict(doms=[2, 2, 2, 2], steps="several"), dict(doms=[3, 2, 3, 2], steps="one"), dict(doms=[3, 2, 3, 2], steps="several"),
+                dict(doms=[2, 2, 2], steps="one", extra=True)]
     return out
 
 
@@ -274,7 +290,7 @@ _BUILDS_F = ["positional", "decorator", "kwargs-fallback", "f_kwargs", "named-f_
 def h_function(env):
     from pydcop.dcop import relations as R
     p = env.params
-    vs = _mk_vars(p["doms"])
+    vs = _mk_vars(_doms(env, p))
     tab = fx.LazyTable(env, "c", vs)
     oracle = lambda a: tab.cell(tuple(a[v.name] for v in vs))  # noqa
     build = p["build"]
@@ -311,10 +327,12 @@ def h_function(env):
 def _function_shapes(tier):
     out = []
     for b in _BUILDS_F:
-        doms = [[3], [2, 3], [2, 2, 2]] + ([[2, 2, 2, 2]] if tier == "thorough" or b in ("positional", "named-f_kwargs") else [])
-        if b in ("positional", "f_kwargs"):
-            doms = [[]] + doms
-        out += [dict(build=b, doms=d, steps=s) for d in doms for s in ("one", "several")]
+        doms = ([[]] if b in ("positional", "f_kwargs") else []) + [[3], [2, 3], [2, 2, 2]]
+        out += [dict(build=b, doms_any=doms, steps=s) for s in ("one", "several")]
+        if tier == "thorough":
+            out += [dict(build=b, doms=[2, 2, 2, 2], steps=s) for s in ("one", "several")]
+        elif b == "positional":
+            out.append(dict(build=b, doms=[2, 2, 2, 2], steps="one"))
     return out
 
 
@@ -324,7 +342,7 @@ def h_simple(env):
     from pydcop.dcop import relations as R
     from pydcop.dcop.objects import Variable
     p = env.params
-    kind = p["kind"]
+    kind = env.choice("kind", p["kinds"]) if "kinds" in p else p["kind"]
     if kind == "unary-function":
         x = Variable("q", fx.domain("d", [10, 0, 5]))
         tab = fx.LazyTable(env, "u", [x])
@@ -339,7 +357,7 @@ def h_simple(env):
         rel = R.ZeroAryRelation("z", val)
         scope, oracle = [], (lambda a: val)
     elif kind == "neutral":
-        scope = _mk_vars(p["doms"])
+        scope = _mk_vars(_doms(env, p))
         rel = R.NeutralRelation(scope, "neutral")
         oracle = lambda a: 0  # noqa
     else:
@@ -348,10 +366,9 @@ def h_simple(env):
 
 
 def _simple_shapes(tier):
-    out = [dict(kind=k, steps=s) for k in ("unary-function", "unary-boolean", "zero-ary") for s in ("one", "several")]
-    out += [dict(kind="neutral", doms=d, steps=s) for d in ([[2], [2, 3, 2]] + ([[2, 2, 2, 2]] if tier == "thorough" else []))
-            for s in ("one", "several")]
-    return out
+    kinds = ["unary-function", "unary-boolean", "zero-ary", "neutral"]
+    doms = [[2], [2, 3, 2]] + ([[2, 2, 2, 2]] if tier == "thorough" else [])
+    return [dict(kinds=kinds, doms_any=doms, steps=s) for s in ("one", "several")]
 
 
 # ------------------------------------------------------------------ conditional relations
